@@ -125,7 +125,7 @@ def col_class(c):
 def diff_results(a, b):
     """differences between two result snapshots, tolerance per column class (design_notes/C07.md):
     state (p, T, norm factors, powers): rtol 1e-8 + atol 1e-9;
-    flow (mdot, vdot, v, Re): atol 1e-6 * max|column| + floor (1e-7 kg/s, 1e-5 m/s, Re 1): a branch with zero pressure
+    flow (mdot, vdot, v, Re): atol 1e-6 * max|column| + floor (1e-7 kg/s, 1e-4 m/s, Re 1): a branch with zero pressure
       difference has dp ~ m^2, so the Newton iteration determines m there only to ~sqrt(tolerance);
     lambda: only where Re > 1 (64/Re of a numerically-zero flow is noise)."""
     diffs = []
@@ -156,7 +156,7 @@ def diff_results(a, b):
                     continue
                 if cls == "lambda" and re_a is not None and (re_a[p] is None or abs(re_a[p]) <= 1.0):
                     continue
-                floor = 1.0 if c.startswith("reynolds") else 1e-5 if c.startswith("v_") else 1e-7
+                floor = 1.0 if c.startswith("reynolds") else 1e-4 if c.startswith("v_") else 1e-7
                 tol = (1e-9 + 1e-8 * max(abs(x), abs(y))) if cls == "state" else \
                     (1e-6 * scale + floor) if cls == "flow" else 1e-6 * max(abs(x), abs(y))
                 if not (x == y or abs(x - y) <= tol):
